@@ -382,6 +382,47 @@ func (g *gen) thereAndBack() []Macro {
 	return ops
 }
 
+// pipe: one request through the whole chain (bind, authenticate, impersonation check, dispatch) with the server name
+// changing hands (or anything else) between any two stages, in particular after the last check and before the dispatcher.
+func (g *gen) pipe() []Macro {
+	g.feat["pipe"] = true
+	host, tok := g.host(), g.pick(g.toks)
+	m := Macro{Op: "pipe", Host: rig.Hex(host), Tok: rig.Hex(tok), Attrs: -1}
+	if g.r.Intn(100) < 65 {
+		m.Attrs = g.r.Intn(len(g.cs.Attrs))
+	}
+	enc := map[string]bool{flightKey(host, tok): true}
+	between := func() []Macro {
+		live := g.liveInsts()
+		if len(live) > 0 && g.r.Intn(100) < 70 {
+			g.feat["own-host-moves"] = true
+			return []Macro{g.add(gatewaynet.HostWithoutPort(host), live[g.r.Intn(len(live))])}
+		}
+		return g.mid(0, enc, host)
+	}
+	if g.r.Intn(100) < 30 {
+		m.Mid0 = between()
+	}
+	if g.r.Intn(100) < 30 {
+		m.MidA = between()
+	}
+	if g.r.Intn(100) < 40 {
+		g.feat["pipe+midD"] = true
+		m.MidD = between()
+	}
+	if g.r.Intn(100) < 12 {
+		m.Mid2 = between()
+	}
+	if g.r.Intn(100) < 12 {
+		m.Mid = between()
+	}
+	ops := []Macro{m}
+	if len(g.stopped) > 0 {
+		ops = append(ops, g.ev(Ev{E: "dropStopped"}))
+	}
+	return ops
+}
+
 // bind: a third of the requests pass the real WithUpstreamInfo first; a quarter of those see events (mostly their own
 // host changing hands) before the authenticator / authorizer resolves the host again.
 func (g *gen) bind(m *Macro, depth int, enclosing map[string]bool) {
@@ -466,7 +507,7 @@ func (g *gen) times() []int {
 }
 
 // genCase draws one case. profile: "long" | "zero" | "mixed" | "short".
-func genCase(r *rand.Rand, profile string) (*Case, map[string]bool) {
+func genCase(r *rand.Rand, profile string, tokRetries bool) (*Case, map[string]bool) {
 	g := &gen{r: r, cs: &Case{}, keys: map[string]int{}, stopped: map[int]bool{}, instName: map[int]string{},
 		eps: map[int]map[string]bool{}, feat: map[string]bool{}, maxInst: 6}
 	cs := g.cs
@@ -514,6 +555,9 @@ func genCase(r *rand.Rand, profile string) (*Case, map[string]bool) {
 				default:
 					a = TokAns{K: "err", How: "call"}
 				}
+				if tokRetries && a.K != "err" && r.Intn(100) < 30 {
+					a.Retries = 1 // (each token retry sleeps the webhook's 500 ms: only a few cases per run carry them)
+				}
 				cs.TokOracle = append(cs.TokOracle, TokRule{Inst: inst, Tok: rig.Hex(tok), From: from, Ans: a})
 			}
 		}
@@ -533,6 +577,9 @@ func genCase(r *rand.Rand, profile string) (*Case, map[string]bool) {
 				default:
 					a = SarAns{K: "err"}
 				}
+				if a.K == "st" && r.Intn(100) < 22 {
+					a.Retries = 1 + r.Intn(2) // the first attempt(s) of the review fail with a retryable 500
+				}
 				cs.SarOracle = append(cs.SarOracle, SarRule{Inst: inst, Attrs: ai, From: from, Ans: a})
 			}
 		}
@@ -545,6 +592,8 @@ func genCase(r *rand.Rand, profile string) (*Case, map[string]bool) {
 		switch {
 		case x < 7:
 			cs.Ops = append(cs.Ops, g.thereAndBack()...)
+		case x < 19:
+			cs.Ops = append(cs.Ops, g.pipe()...)
 		case x < 74:
 			cs.Ops = append(cs.Ops, g.request(0, map[string]bool{})...)
 		case x < 79 && g.short:
